@@ -443,7 +443,11 @@ AbortWake(s) ==
 BrokerReact(s, c) ==
   LET cn == s.conns[c]  p == cn.c2b[cn.taken + 1]  b == s.broker
       reply(x) == [s EXCEPT !.conns[c].taken = @ + 1, !.conns[c].b2c = @ \o x]
-  IN CASE p.t = "CONNECT" -> [reply(<<Pk("CONNACK", 0, 0, FALSE, 0)>>) EXCEPT !.broker.session = TRUE]
+      \* a CONNECT takes the session over: the broker drops the older connections of this client
+      \* (MQTT-3.1.4-2), so nothing written there is processed any more
+      takeover(x) == [x EXCEPT !.conns = [i \in DOMAIN x.conns |->
+                         IF i < c THEN [x.conns[i] EXCEPT !.taken = Len(x.conns[i].c2b), !.eof = TRUE] ELSE x.conns[i]]]
+  IN CASE p.t = "CONNECT" -> [takeover(reply(<<Pk("CONNACK", 0, 0, FALSE, 0)>>)) EXCEPT !.broker.session = TRUE]
        [] p.t = "PUBLISH" /\ p.qos = 1 -> [reply(<<Pk("PUBACK", p.id, 0, FALSE, 0)>>) EXCEPT !.broker.delivered = Append(@, p.tag)]
        [] p.t = "PUBLISH" /\ p.qos = 2 ->
             IF p.id \in b.awaiting THEN reply(<<Pk("PUBREC", p.id, 0, FALSE, 0)>>)
@@ -453,7 +457,7 @@ BrokerReact(s, c) ==
        [] OTHER -> reply(<<>>)
 
 BrokerMoves(s) ==
-  {[s |-> BrokerReact(s, c), c |-> c] : c \in {x \in DOMAIN s.conns : s.conns[x].taken < Len(s.conns[x].c2b) /\ ~s.conns[x].dead}}
+  {[s |-> BrokerReact(s, c), c |-> c] : c \in {x \in DOMAIN s.conns : s.conns[x].taken < Len(s.conns[x].c2b) /\ ~s.conns[x].dead /\ ~s.conns[x].eof}}
 
 (* ----------------------------------------------------------------------- *)
 
